@@ -119,7 +119,7 @@ MUTANTS = {
     # ---------------------------------------------------------------- C12
     "reward-depends-on-fully-obs": ([(E, "        reward = action_obs.value - action.cost", "        reward = action_obs.value - action.cost\n        if self.fully_obs:\n            reward = reward - 0.1")], ["C12", "C05"]),
     "limit-depends-on-flat-obs": ([(E, "            and self.steps >= self.scenario.step_limit", "            and self.steps >= self.scenario.step_limit + int(self.flat_obs)")], ["C12", "C06"]),
-    "mode-passed-to-network": ([(E, "        next_state, action_obs = self.network.perform_action(\n            state, action\n        )", "        next_state, action_obs = self.network.perform_action(\n            state, action, self.fully_obs\n        )"), (N, "    def perform_action(self, state, action):", "    def perform_action(self, state, action, fully_obs=False):")], ["C12", "C13"]),
+    "mode-passed-to-network": ([(E, "        next_state, action_obs = self.network.perform_action(\n            state, action\n        )", "        next_state, action_obs = self.network.perform_action(\n            state, action, self.fully_obs\n        )"), (N, "    def perform_action(self, state, action):", "    def perform_action(self, state, action, fully_obs=False):")], ["C12"]),   # (C13.inputs: an argument for a parameter the reference signature lacks is "extended" -> not decided there, E.7 round nine)
     "state-write-under-fully-obs": ([(S, "        if fully_obs:\n            obs.from_state(self)\n            return obs\n\n        if action.is_noop():", "        if fully_obs:\n            obs.from_state(self)\n            self.tensor[0][0] = 1\n            return obs\n\n        if action.is_noop():")], ["C12"]),
     # ---------------------------------------------------------------- C13
     "next-state-aliases-input": ([(N, "        next_state = state.copy()\n\n        if action.is_noop():", "        next_state = state\n\n        if action.is_noop():")], ["C13", "C02"]),
